@@ -53,7 +53,7 @@ func (e *Engine) pickTarget(c *cursor, self *MEnt, allowDead bool) ecs.Entity {
 			return ecs.Entity{}
 		}
 		k2 := c.n(1 << 30)
-		if sub < 70 {
+		if sub < 70 && e.P.Wide != "tables" {
 			return e.M.Alive[k2%minInt(len(e.M.Alive), 3)].H
 		}
 		return e.M.Alive[k2%len(e.M.Alive)].H
